@@ -19,6 +19,7 @@ class Case(NamedTuple):
     files: dict  # relpath -> text; the main program is "main.py"
     flags: list
     fixtures: dict = {}  # "builtins.pyi"/"typing.pyi"/... -> path below test-data/unit (only used by fixture-mode drivers)
+    notes: tuple = ()  # normalised texts of the notes the test expects in main.py next to an error (sampling aid only)
 
 
 _SECTION = re.compile(r"^\[([a-zA-Z0-9_.\-/ ]+)\]\s*$")
@@ -47,8 +48,15 @@ def parse_test_file(path: str) -> list[Case]:
             return
         files = {}
         flags: list[str] = []
+        notes: tuple = ()
         for sec, body in secs.items():
             text = "\n".join(body).rstrip("\n") + "\n"
+            if sec == "main" and "# N:" in text and "# E:" in text:
+                found = re.findall(r"# N:(?:\d+:)? ?(.*?)(?= +# [ENW]:|\\?$)", text, flags=re.M)
+                notes = tuple(sorted({re.sub(r"\d+", "0", re.sub(r'"[^"]*"', "Q", m)).strip()[:60] for m in found}))
+            if sec == "out" and ": note: " in text and ": error: " in text:
+                found = re.findall(r"^main:\d+(?::\d+)?: note: (.*)$", text, flags=re.M)
+                notes = tuple(sorted(set(notes) | {re.sub(r"\d+", "0", re.sub(r'"[^"]*"', "Q", m)).strip()[:60] for m in found}))
             if sec == "main":
                 m = re.search(r"^# flags: (.*)$", text, re.M)
                 if m:
@@ -67,7 +75,7 @@ def parse_test_file(path: str) -> list[Case]:
             if len(parts) == 2 and parts[0] in ("builtins", "typing", "typing_extensions", "_typeshed", "enum") and parts[1].startswith(("fixtures/", "lib-stub/")):
                 fixtures[parts[0] + ".pyi"] = parts[1]
         if "main.py" in files:
-            cases.append(Case(cur_name, os.path.basename(path), files, flags, fixtures))
+            cases.append(Case(cur_name, os.path.basename(path), files, flags, fixtures, notes))
 
     for line in lines:
         m = line.startswith("[") and _SECTION.match(line)
